@@ -233,7 +233,25 @@ func (tr *gtTr) calleeMuts(c *ast.CallExpr, env *venv) []stKey {
 	if _, isMethod := p.funcs[v.typ.nname+"."+sel.Sel.Name]; !isMethod {
 		return nil
 	}
-	callee := tr.st.translate(tr.g, v.typ.ndir, v.typ.nname+"."+sel.Sel.Name, tr.fn)
+	if tr.st.methodDiverges(tr.g, v.typ.ndir, v.typ.nname+"."+sel.Sel.Name, 0) {
+		return nil // t.errorf(...): a panic, whatever it does before
+	}
+	// a callee that cannot be translated has no known effects here; the translation of the call itself reports it
+	var callee *gtFn
+	func() {
+		defer func() {
+			if r := recover(); r != nil {
+				if _, ok := r.(gtErr); !ok {
+					panic(r)
+				}
+				callee = nil
+			}
+		}()
+		callee = tr.st.translate(tr.g, v.typ.ndir, v.typ.nname+"."+sel.Sel.Name, tr.fn)
+	}()
+	if callee == nil {
+		return nil
+	}
 	var out []stKey
 	for _, m := range callee.muts {
 		if m.prm == 0 {
